@@ -140,7 +140,26 @@ def crashtxn(db, mode, cache, sync):
     return 0
 
 
+def crashnew(db, mode, cache, sync, ps):
+    """the very first transaction of a brand-new database: every page it writes lies beyond the original (empty)
+    file; recovery truncates the file back to nothing"""
+    con = sqlite3.connect(db, isolation_level=None, timeout=0)
+    con.execute("PRAGMA page_size=%d" % ps)
+    con.execute("PRAGMA journal_mode=%s" % mode)
+    con.execute("PRAGMA cache_size=%d" % cache)
+    con.execute("PRAGMA synchronous=%s" % sync)
+    con.execute("BEGIN IMMEDIATE")
+    con.execute("CREATE TABLE t(id INTEGER PRIMARY KEY, v INT, pad TEXT)")
+    for i in range(60):
+        con.execute("INSERT INTO t VALUES(?,?,?)", (i, 101000 + i, "p" * (ps // 5)))
+    con.execute("COMMIT")
+    con.close()
+    return 0
+
+
 if __name__ == "__main__":
+    if sys.argv[1] == "crashnew":
+        sys.exit(crashnew(sys.argv[2], sys.argv[3], int(sys.argv[4]), sys.argv[5], int(sys.argv[6])))
     if sys.argv[1] == "crashtxn":
         sys.exit(crashtxn(sys.argv[2], sys.argv[3], int(sys.argv[4]), sys.argv[5] if len(sys.argv) > 5 else "FULL"))
     if sys.argv[1] == "agent":
